@@ -21,7 +21,7 @@
    Bytes are list Z.  Syncsafe integers come from Model.Id3Util (C14). *)
 From Coq Require Import ZArith List Bool.
 Import ListNotations.
-Require Import Base.Py Gen.Gen_tags Model.Splice Model.Id3Util.
+Require Import Base.Py Base.FileModel Gen.Gen_tags Gen.Gen_util Model.Splice Model.Id3Util.
 Open Scope Z_scope.
 
 Definition M_ID3 : list Z := [73; 68; 51].                          (* b"ID3" *)
@@ -149,6 +149,17 @@ Definition id3f_save_v2 (f framedata : list Z) (o : opts) : result (list Z * Z) 
       else Ok (splice f 0 old_size data, zlen data)
     end
   end.
+
+(* the same step as a program over the file object (regenerated insert_bytes / delete_bytes of mutagen/_util.py):
+     if old_size < new_size: insert_bytes(f, new_size - old_size, old_size)
+     elif old_size > new_size: delete_bytes(f, old_size - new_size, new_size)
+     f.seek(0); f.write(data) *)
+Definition id3_save_prog (BUF old_size : Z) (data : list Z) : M unit :=
+  let new_size := zlen data in
+  (if old_size <? new_size then insert_bytes BUF (new_size - old_size) old_size
+   else if new_size <? old_size then delete_bytes BUF (old_size - new_size) new_size
+   else ret tt) ;;
+  f_seek 0 0 ;; f_write data.
 
 Definition id3f_save (f framedata : list Z) (o : opts) : result (list Z) :=
   match id3f_save_v2 f framedata o with
